@@ -4,7 +4,10 @@
 //   mode 0: the plugin gets a LOCAL MemoryLeakDetector; blocks are obtained with detector->allocMemory / deallocMemory.
 //   mode 1: a fresh detector is installed as the GLOBAL one (setGlobalDetector), the plugin uses it; blocks are obtained with
 //           operator new / new [] / cpputest_malloc and released with the matching call.
-// A second plugin installed after the leak plugin (so its pre-action runs first) performs the <before> statements of each test.
+// A plugin installed after the leak plugin (so its pre-action runs first) performs the <before> statements of each test; a
+// plugin installed before the leak plugin performs <ipre> in its pre-action (after the leak plugin's) and <ipost> in its
+// post-action (before the leak plugin's), a failing statement there being result.addFailure(...).  <pre> runs before the leak
+// plugin is constructed (the detector is still disabled).
 // While the overloads are on the harness itself allocates nothing (everything is sized before), so that every tracked block is
 // one the scenario asked for -- or one CppUTest makes for itself.
 // Scenario / observation grammar: ocaml/c07_driver.ml.
@@ -28,7 +31,7 @@
 using namespace hl;
 
 struct Stmt { char kind; unsigned id; size_t size; unsigned k; size_t n; };
-struct TestDef { int idx; std::vector<Stmt> before, ph[3]; char name[16]; };
+struct TestDef { int idx; std::vector<Stmt> before, ipre, ph[3], ipost; char name[16]; };
 
 static const unsigned MAXID = 4096, MAXALLOC = 1 << 16, MAXTESTS = 4096;
 static int gMode;
@@ -67,14 +70,17 @@ static void doFree(unsigned id)
     else if (k == 1) delete [] (char*) p;
     else cpputest_free(p);
 }
-static void execList(const std::vector<Stmt>& v)
+static void execList(const std::vector<Stmt>& v, UtestShell* pluginTest = NULLPTR, TestResult* pluginResult = NULLPTR)
 {
     for (size_t i = 0; i < v.size(); i++) {
         const Stmt& s = v[i];
         switch (s.kind) {
         case 'a': doAlloc(s); break;
         case 'f': doFree(s.id); break;
-        case 'x': FAIL("VOWN"); break;
+        case 'x':
+            if (pluginTest) pluginResult->addFailure(TestFailure(pluginTest, "plg.cpp", 3, "VPLUGIN"));   // as MockSupportPlugin does
+            else FAIL("VOWN");
+            break;
         case 'e': EXPECT_N_LEAKS(s.n); break;
         case 'i': IGNORE_ALL_LEAKS_IN_TEST(); break;
         default: fprintf(stderr, "harness: statement %c\n", s.kind); exit(3);
@@ -101,6 +107,12 @@ class BeforePlugin : public TestPlugin {
 public:
     BeforePlugin() : TestPlugin("VerifBefore") {}
     void preTestAction(UtestShell& t, TestResult&) CPPUTEST_OVERRIDE { execList(static_cast<ScriptedShell&>(t).d_->before); }
+};
+class InnerPlugin : public TestPlugin {
+public:
+    InnerPlugin() : TestPlugin("VerifInner") {}
+    void preTestAction(UtestShell& t, TestResult& r) CPPUTEST_OVERRIDE { execList(static_cast<ScriptedShell&>(t).d_->ipre, &t, &r); }
+    void postTestAction(UtestShell& t, TestResult& r) CPPUTEST_OVERRIDE { execList(static_cast<ScriptedShell&>(t).d_->ipost, &t, &r); }
 };
 class LocalReporter : public MemoryLeakFailure {
 public:
@@ -170,13 +182,15 @@ int main()
     Toks t; Out o;
     while (readline(t)) {
         gMode = t.n(); size_t tbd = (size_t) t.u();
+        std::vector<Stmt> pre; readStmts(t, pre);
         int nt = t.n();
         if (nt < 0 || nt >= (int) MAXTESTS) { fprintf(stderr, "harness: too many tests\n"); exit(3); }
         std::vector<TestDef> defs(nt);
         for (int i = 0; i < nt; i++) {
             TestDef& d = defs[i]; d.idx = i; snprintf(d.name, sizeof d.name, "t%x", i);
-            readStmts(t, d.before);
+            readStmts(t, d.before); readStmts(t, d.ipre);
             for (int p = 0; p < 3; p++) readStmts(t, d.ph[p]);
+            readStmts(t, d.ipost);
         }
         std::vector<Stmt> tail; readStmts(t, tail);
 
@@ -190,16 +204,17 @@ int main()
         size_t failures = 0; const char* finalText = "";
         {
             TestRegistry reg;
-            MemoryLeakWarningPlugin leak("VerifLeak", gMode == 0 ? gDet : NULLPTR);
-            MemoryLeakWarningPlugin::firstPlugin_ = &leak;                     // what EXPECT_N_LEAKS / IGNORE_ALL_LEAKS_IN_TEST reach
-            BeforePlugin before;
-            reg.installPlugin(&leak); reg.installPlugin(&before);
+            BeforePlugin before; InnerPlugin inner;
             std::vector<UtestShell*> shells(nt);
             for (int i = 0; i < nt; i++) shells[i] = new ScriptedShell(&defs[i]);
             for (int i = nt - 1; i >= 0; i--) reg.addTest(shells[i]);
             RecordingOutput out; TestResult result(out);
 
             MemoryLeakWarningPlugin::turnOnDefaultNotThreadSafeNewDeleteOverloads();
+            execList(pre);                                                     // the detector is still in period `disabled`
+            MemoryLeakWarningPlugin leak("VerifLeak", gMode == 0 ? gDet : NULLPTR);
+            MemoryLeakWarningPlugin::firstPlugin_ = &leak;                     // what EXPECT_N_LEAKS / IGNORE_ALL_LEAKS_IN_TEST reach
+            reg.installPlugin(&inner); reg.installPlugin(&leak); reg.installPlugin(&before);   // chain: before -> leak -> inner
             reg.runAllTests(result);
             execList(tail);
             failures = result.getFailureCount();
@@ -227,6 +242,7 @@ int main()
             if (finalText[0] == 0) o << "1" << "0" << "0" << "0" << "0";
             else { o << "0"; parseReport(finalText, o); }
             MemoryLeakWarningPlugin::firstPlugin_ = NULLPTR;
+            reg.resetPlugins();
             for (int i = 0; i < nt; i++) delete shells[i];
         }
         if (gMode != 0) MemoryLeakWarningPlugin::setGlobalDetector(origDet, origRep);
